@@ -1,9 +1,9 @@
 /-!
 # Model of `BasicDelayedEventQueue`: who owns a delayed event, at the level of atomic steps
 
-Two actors: the timer thread (libevent runs `timerCallback` for one expired timer at a time)
-and a canceller (the interpreter thread in `cancelDelayed` / `cancelAllDelayed` /
-`enqueueDelayed`). Every section of the C++ that runs under `_mutex`, and every libevent call,
+Actors: the timer thread (libevent runs `timerCallback` for one expired timer at a time)
+and any number of cancellers (threads in `cancelDelayed` / `cancelAllDelayed` /
+`enqueueDelayed`; `cancelAllDelayed` detaches every entry in one locked section). Every section of the C++ that runs under `_mutex`, and every libevent call,
 is one atomic action; the actions of the two actors interleave arbitrarily.
 
 An allocated `callbackData` is an `Entry`, identified by its index in `nodes` (its address).
@@ -41,17 +41,11 @@ inductive Timer where
   | done (i : Nat)             -- `eventReady` returned
   deriving Repr, DecidableEq, Inhabited
 
-/-- where the canceller is -/
-inductive Canc where
-  | idle
-  | detached (i : Nat)         -- `detach()` returned entry `i`; `dispose()` not yet run
-  deriving Repr, DecidableEq, Inhabited
-
 structure DQ where
   now : Nat := 0
   nodes : List Entry := []
   timer : Timer := .idle
-  canc : Canc := .idle
+  canc : List Nat := []        -- entries that `detach()` / `cancelAllDelayed` took out of the map and nobody disposed of yet
   fault : Bool := false        -- a freed entry was used, or freed again
   deriving Repr, Inhabited
 
@@ -59,7 +53,7 @@ inductive Act where
   | tick                               -- time passes
   | enqueue (key due : Nat)            -- `enqueueDelayed` for a key that is not in the map
   | detach (key : Nat)                 -- `detach(key)` under `_mutex`
-  | dispose                            -- `dispose(data)`: `event_del`, `event_free`, `delete`
+  | dispose (i : Nat)                  -- `dispose(data)`: `event_del`, `event_free`, `delete`
   | fire (i : Nat)                     -- libevent starts the callback of an expired timer
   | check                              -- the first locked section of `timerCallback`
   | deliver                            -- `eventReady`
@@ -85,31 +79,27 @@ def DQ.lookup (s : DQ) (key : Nat) : Option Nat :=
 def step (s : DQ) : Act → Option DQ
   | .tick => some { s with now := s.now + 1 }
   | .enqueue key due =>
-    match s.canc, s.lookup key with
-    | .idle, none => some { s with nodes := s.nodes ++ [{ key := key, due := due }] }
-    | _, _ => none
+    match s.lookup key with
+    | none => some { s with nodes := s.nodes ++ [{ key := key, due := due }] }
+    | some _ => none
   | .detach key =>
-    match s.canc with
-    | .idle =>
-      match s.lookup key with
-      | some i =>
-        match s.get i with
-        | some e => some { (s.put i { e with loc := .cancOwned, cancelled := true }) with canc := .detached i }
-        | none => none
-      | none => some s                                  -- nothing to cancel
-    | _ => none
-  | .dispose =>
-    match s.canc with
-    | .detached i =>
-      -- `event_del` does not return while the callback of this very event runs
-      if s.timer.current == some i then none
-      else
-        match s.get i with
-        | some e =>
-          if e.loc == .cancOwned then some { (s.put i { e with loc := .freed, armed := false }) with canc := .idle }
-          else some { s with fault := true }
-        | none => some { s with fault := true }
-    | .idle => none
+    match s.lookup key with
+    | some i =>
+      match s.get i with
+      | some e => some { (s.put i { e with loc := .cancOwned, cancelled := true }) with canc := i :: s.canc }
+      | none => none
+    | none => some s                                  -- nothing to cancel
+  | .dispose i =>
+    if !s.canc.contains i then none
+    -- `event_del` does not return while the callback of this very event runs
+    else if s.timer.current == some i then none
+    else
+      match s.get i with
+      | some e =>
+        if e.loc == .cancOwned then
+          some { (s.put i { e with loc := .freed, armed := false }) with canc := s.canc.filter (· != i) }
+        else some { s with fault := true }
+      | none => some { s with fault := true }
   | .fire i =>
     match s.timer, s.get i with
     | .idle, some e =>
